@@ -108,7 +108,7 @@ def run_tlc(module, cfg_path, workers=16, env=None, timeout=3600, simulate=None,
     """
     meta = new_scratch('tlcmeta')
     out_path = os.path.join(meta, 'tlc.out')
-    opts = '-Xmx%s -XX:+UseParallelGC' % heap
+    opts = '-Xmx%s -XX:+UseParallelGC -Djava.io.tmpdir=%s' % (heap, meta)      # TLC unpacks its standard modules into java.io.tmpdir: keep that inside the scratch directory
     if dfs:
         opts += ' -Dtlc2.tool.queue.IStateQueue=StateDeque'
     cmd = ['java'] + opts.split() + ['-cp', TLA_CP, 'tlc2.TLC', '-workers', str(workers), '-metadir', os.path.join(meta, 'states'),
